@@ -50,6 +50,7 @@ func main() {
 	repo := flag.String("repo", "/repo", "repository root")
 	verif := flag.String("verif", "", "verification root (default: parent of the binary's directory)")
 	mutant := flag.String("mutant", "", "mutant spec (json) to self-test the rules against; never prints VIOLATION")
+	seedPatch := flag.String("seedpatch", "", "unified diff (a confirmed seeded change) to self-test the rules against through an overlay; never prints VIOLATION")
 	variantFlag := flag.String("variants", "", "comma separated build variants (default native; thorough: native,go118,386)")
 	verbose := flag.Bool("v", false, "print every obligation")
 	dump := flag.String("dump", "", "debug: print the SSA of rel/pkg:Func (e.g. :Dials.monitor, transform:Transformer.ReverseTranslate)")
@@ -95,6 +96,9 @@ func main() {
 	}
 	if *mutant != "" {
 		os.Exit(runMutant(*repo, *prop, pm, *mutant))
+	}
+	if *seedPatch != "" {
+		os.Exit(runSeedPatch(*repo, *prop, pm, *seedPatch))
 	}
 
 	start := time.Now()
@@ -316,10 +320,94 @@ func runMutant(repo, prop string, pm *propMeta, specPath string) int {
 	return 5
 }
 
+// runSeedPatch applies a unified diff to a private temporary copy of the
+// files it touches (removed before returning), loads /repo with the patched
+// contents as an overlay and reports whether any rule of the property objects.
+func runSeedPatch(repo, prop string, pm *propMeta, patchPath string) int {
+	if abs, err := filepath.Abs(patchPath); err == nil {
+		patchPath = abs
+	}
+	name := filepath.Base(filepath.Dir(patchPath))
+	diff, err := os.ReadFile(patchPath)
+	if err != nil {
+		fmt.Println("MUTANT error", err)
+		return 2
+	}
+	tmp, err := os.MkdirTemp("", "dialscheck-seed-")
+	if err != nil {
+		fmt.Println("MUTANT error", err)
+		return 2
+	}
+	defer os.RemoveAll(tmp)
+	var files []string
+	for _, l := range strings.Split(string(diff), "\n") {
+		if strings.HasPrefix(l, "+++ b/") {
+			files = append(files, strings.TrimSpace(strings.TrimPrefix(l, "+++ b/")))
+		}
+	}
+	for _, f := range files {
+		src, err := os.ReadFile(filepath.Join(repo, f))
+		if err != nil {
+			fmt.Printf("MUTANT skipped seed:%s (file %s missing)\n", name, f)
+			return 3
+		}
+		os.MkdirAll(filepath.Dir(filepath.Join(tmp, f)), 0o755)
+		os.WriteFile(filepath.Join(tmp, f), src, 0o644)
+	}
+	cmd := exec.Command("patch", "-p1", "-s", "--no-backup-if-mismatch", "-d", tmp, "-i", patchPath)
+	if out, err := cmd.CombinedOutput(); err != nil {
+		fmt.Printf("MUTANT skipped seed:%s (patch no longer applies: %s)\n", name, strings.TrimSpace(string(out)))
+		return 3
+	}
+	ov := map[string][]byte{}
+	for _, f := range files {
+		b, _ := os.ReadFile(filepath.Join(tmp, f))
+		ov[filepath.Join(repo, f)] = b
+	}
+	w, err := loadVariant(repo, "native", ov)
+	if err != nil {
+		fmt.Printf("MUTANT invalid seed:%s: %v\n", name, err)
+		return 4
+	}
+	c := newCtx(prop, "quick", w)
+	func() {
+		defer func() {
+			if r := recover(); r != nil {
+				c.rules["analysis"] = "analysis must complete"
+				c.add("analysis", "panic", 0, Undecided, true, 0, "checker panic: %v", r)
+			}
+		}()
+		pm.run(c)
+		for id, min := range c.ruleMin {
+			if c.ruleCnt[id] < min {
+				c.add(id, "instance-count", 0, Undecided, true, 0, "vacuity guard")
+			}
+		}
+	}()
+	var hits []string
+	for _, o := range c.Obs {
+		if o.Verdict != OK {
+			hits = append(hits, o.ID)
+		}
+	}
+	if len(hits) > 0 {
+		if len(hits) > 3 {
+			hits = hits[:3]
+		}
+		fmt.Printf("MUTANT detected seed:%s by %s\n", name, strings.Join(hits, ","))
+		return 0
+	}
+	fmt.Printf("MUTANT missed seed:%s (independent seeded change not reported by this property's rules)\n", name)
+	return 5
+}
+
 // runMutants runs every mutant spec of the property in its own process.
 func runMutants(verif, repo, prop string) map[string]interface{} {
 	files, _ := filepath.Glob(filepath.Join(verif, "mutants", prop, "*.json"))
 	sort.Strings(files)
+	seeds, _ := filepath.Glob(filepath.Join(verif, "seeded", prop+"-*", "patch.diff"))
+	sort.Strings(seeds)
+	files = append(files, seeds...)
 	type res struct {
 		name, out string
 		code      int
@@ -333,7 +421,11 @@ func runMutants(verif, repo, prop string) map[string]interface{} {
 			defer wg.Done()
 			sem <- struct{}{}
 			defer func() { <-sem }()
-			cmd := exec.Command(os.Args[0], "-prop", prop, "-repo", repo, "-verif", verif, "-mutant", f)
+			flagName := "-mutant"
+			if strings.HasSuffix(f, "patch.diff") {
+				flagName = "-seedpatch"
+			}
+			cmd := exec.Command(os.Args[0], "-prop", prop, "-repo", repo, "-verif", verif, flagName, f)
 			out, err := cmd.CombinedOutput()
 			code := 0
 			if ee, ok := err.(*exec.ExitError); ok {
@@ -341,7 +433,7 @@ func runMutants(verif, repo, prop string) map[string]interface{} {
 			} else if err != nil {
 				code = 2
 			}
-			results[i] = res{name: filepath.Base(f), out: strings.TrimSpace(string(out)), code: code}
+			results[i] = res{name: filepath.Base(filepath.Dir(f)) + "/" + filepath.Base(f), out: strings.TrimSpace(string(out)), code: code}
 		}(i, f)
 	}
 	wg.Wait()
